@@ -71,11 +71,20 @@ Outcome(q, ct) ==
 (* ---- the content script endpoint (contentscript.go buildContentScript) ---- *)
 \* method: "GET" | "POST"; hostname, option, ts: how the query parameter looks; ims: If-Modified-Since present
 \*   hostname: "absent" | "one" | "twice"      (getQueryParameter wants exactly one value)
-\*   option:   "absent" | "zero" | "garbage" | a cosmetic option 1..7 given as "opt"
+\*   option:   "absent" | "zero" | "garbage" | a cosmetic option 1..7 given as "o1".."o7"
+\*             (bit 1: generic element hiding, bit 2: element hiding, bit 4: scripts - rules/match.go)
 \*   ts:       "absent" | "zero" | "created" (the server's creation time) | "other"
+OptionValue(option) == CASE option = "o1" -> 1 [] option = "o2" -> 2 [] option = "o3" -> 3 [] option = "o4" -> 4
+                         [] option = "o5" -> 5 [] option = "o6" -> 6 [] option = "o7" -> 7 [] OTHER -> 0
 ScriptStatus(method, hostname, option, ts, ims) ==
     IF method # "GET" THEN 404
-    ELSE IF hostname # "one" \/ option # "opt" \/ ts \in {"absent", "zero"} THEN 404
+    ELSE IF hostname # "one" \/ OptionValue(option) = 0 \/ ts \in {"absent", "zero"} THEN 404
     ELSE IF ts = "created" /\ ims THEN 304
     ELSE 200
+\* what the served script hides (engine.go GetCosmeticResult, cosmeticengine.go Match): the rules of the page's own host
+\* when element hiding is on, the generic ones when both element hiding and generic element hiding are on; the
+\* scripts bit does not touch either
+ScriptHides(option) ==
+    LET v == OptionValue(option) IN
+    [specific |-> (v \div 2) % 2 = 1, generic |-> (v \div 2) % 2 = 1 /\ v % 2 = 1]
 =============================================================================
